@@ -38,7 +38,7 @@ RULE = ('family = one cache directory, a source of 1-6 examples and a child-writ
         'N-th store). Reference model: directory contents index -> value, handles and '
         'sharing groups, upstream call counters. Non-trivial = a kill, fault, reopen or '
         'release happened; distinct = distinct (plan / history, kill point).')
-PROBES = ['directory_name_with_pattern_characters', 'foreign_file_in_directory_at_open', 'examples_stored_as_separate_files', 'killed_inside_cache_set', 'killed_right_after_store', 'acked_index_served_after_kill',
+PROBES = ['directory_chosen_by_the_library', 'directory_name_with_pattern_characters', 'foreign_file_in_directory_at_open', 'examples_stored_as_separate_files', 'killed_inside_cache_set', 'killed_right_after_store', 'acked_index_served_after_kill',
           'inflight_index_after_kill', 'reuse_false_refused', 'copy_outlived_original',
           'directory_removed_on_last_release', 'directory_kept_on_release',
           'disk_full_raised_on_miss', 'disk_full_hit_still_served', 'store_error_propagated']
@@ -312,6 +312,14 @@ def gen(rng, tier, index):
             # a foreign file (also a hidden one) is in the directory before the
             # first open: the directory is not empty
             cases[-1]['plant'] = rng.choice(['.keep', 'notes.txt', '.nfs0001'])
+    if rng.random() < 0.5:
+        accs = []
+        for _ in range(rng.randrange(2, 8)):
+            r = rng.random()
+            accs.append(['copy_handle'] if r < 0.15 else ['release_oldest'] if r < 0.25
+                        else gen_access(rng, n, kind))
+        cases.append({'mode': 'default_dir', 'n': n, 'kind': kind, 'big': big,
+                      'nonevals': nonevals, 'accesses': accs})
     BIG[0] = False
     NONEVALS[0] = False
     return cases
@@ -658,6 +666,60 @@ def run_life(case):
     return m, trace
 
 
+def run_default_dir(case):
+    """`ds.diskcache()` with every argument left at its default: a directory of
+    the library's own choosing, removed when the last dataset sharing the cache
+    is released."""
+    n, kind = case['n'], case['kind']
+    m = Model()
+    ctx = W.set_ctx(W.Ctx())
+    trace = []
+    directory = None
+    try:
+        up = make_upstream(n, kind)
+        ds = up.diskcache()
+        directory = str(ds._cache.cache.directory)     # observation only
+        if not os.path.isdir(directory):
+            m.bad('directory_missing', 'directory_missing:default_dir',
+                  'diskcache() reports the directory %s, which does not exist' % directory)
+        handles = [ds]
+        ds = None
+        for acc in case['accesses']:
+            if m.violations:
+                break
+            if acc[0] == 'copy_handle':
+                handles.append(handles[-1].copy())
+                continue
+            if acc[0] == 'release_oldest' and len(handles) > 1:
+                del handles[0]
+                gc.collect()
+                if not os.path.isdir(directory):
+                    m.bad('directory_removed_early', 'directory_removed_early:default_dir',
+                          'the directory vanished while a copy still shares the cache')
+                continue
+            if acc[0] in ('copy_handle', 'release_oldest'):
+                continue
+            e, calls = checked_access(m, ctx, handles[-1], n, acc, 'default_dir')
+            trace.append([acc, e.name if e else None])
+            if e is not None:
+                m.bad('access_raised', 'access_raised:' + e.name,
+                      'access %s raised %s without any fault' % (acc, e.text))
+        del handles[:]
+        gc.collect()
+        if not m.violations and os.path.exists(directory):
+            m.bad('directory_not_cleared', 'directory_not_cleared:default_dir',
+                  'diskcache() (clear=True by default): %s still exists after the last dataset '
+                  'sharing the cache was released' % directory)
+        m.probes['directory_chosen_by_the_library'] = 1
+        m.fired['default_directory'] += 1
+    finally:
+        W.set_ctx(None)
+        gc.collect()
+        if directory and os.path.exists(directory):
+            shutil.rmtree(directory, ignore_errors=True)
+    return m, trace
+
+
 def run(case):
     BIG[0] = bool(case.get('big'))
     NONEVALS[0] = bool(case.get('nonevals'))
@@ -674,6 +736,9 @@ def _run(case):
         if case['mode'] == 'crash':
             m, extra = run_crash(case)
             nontrivial = bool(m.fired.get('writer_killed')) or bool(case['pre'])
+        elif case['mode'] == 'default_dir':
+            m, extra = run_default_dir(case)
+            nontrivial = True
         else:
             m, extra = run_life(case)
             nontrivial = bool(m.fired)
@@ -692,6 +757,9 @@ def _run(case):
 def shrink(case):
     if case['mode'] == 'life':
         yield from hist.shrink_ops(case, 'ops')
+        return
+    if case['mode'] == 'default_dir':
+        yield from hist.shrink_ops(case, 'accesses')
         return
     for key in ('pre', 'accesses'):
         for i in range(len(case[key])):
